@@ -59,6 +59,7 @@ type Op struct {
 	N         *Noti  `json:"n,omitempty"`
 	Subscribe bool   `json:"subscribe,omitempty"`
 	Break     bool   `json:"break,omitempty"` // target T's stream fails here; the next session continues the script
+	EOF       bool   `json:"eof,omitempty"`      // the failing session ends cleanly (EOF) instead of with an error
 	DelayUS   int    `json:"delay_us,omitempty"` // the target waits this long before sending the message
 }
 
@@ -101,6 +102,7 @@ type Case struct {
 	NoPace   bool         `json:"nopace,omitempty"` // targets send their later messages back to back
 	Live        bool      `json:"live,omitempty"`   // the clients subscribe while the later messages are already flowing
 	LiveDelayMS int       `json:"live_delay_ms,omitempty"`
+	LiveStaggerMS int     `json:"live_stagger_ms,omitempty"` // between the clients' subscriptions
 	Obs      *Obs         `json:"obs,omitempty"`
 }
 
